@@ -37,6 +37,7 @@ type c10Rig struct {
 	remuxer *remux.Rtmp2MpegtsRemuxer
 	muxer   *hls.Muxer
 	hasVideo bool
+	patpmt   []byte // what the remuxer announced last
 
 	// ground truth
 	started  bool     // a segment file has been created in this incarnation
@@ -51,7 +52,10 @@ type c10Rig struct {
 	stop      bool
 }
 
-func (r *c10Rig) OnPatPmt(b []byte) { r.muxer.FeedPatPmt(b) }
+func (r *c10Rig) OnPatPmt(b []byte) {
+	r.patpmt = append([]byte(nil), b...)
+	r.muxer.FeedPatPmt(b)
+}
 
 func (r *c10Rig) OnTsPackets(p []byte, frame *mpegts.Frame, boundary bool) {
 	before := r.started
